@@ -253,10 +253,13 @@ def _augment_with_ancient_samples(g, sampled_demes, deme_sample_times):
             if st > 0:
                 # add the frozen branch, as sample time is nonzero
                 frozen_demes.append(sd_frozen)
+                # the frozen branch keeps the size of its parent at the sampling
+                # time, so that it neither depends on the reference size nor
+                # dictates the time step
                 b.add_deme(
                     sd_frozen,
                     start_time=st,
-                    epochs=[dict(end_time=0, start_size=1)],
+                    epochs=[dict(end_time=0, start_size=g_new[sd].size_at(st))],
                     ancestors=[sd],
                 )
             elif t > 0:
